@@ -282,15 +282,15 @@ theorem foldlM_sview {α : Type} (f : State → α → M State) (hf : ∀ s a s'
 
 theorem setProvider_sview {s s' : State} {p : Provider} (h : setProvider s p = .ok s') : sview s' = sview s := by
   unfold setProvider at h
-  split at h <;> simp only [pure_eq_ok, gopanic_ne_ok] at h <;> (try subst h) <;> first | rfl | contradiction
+  split at h <;> simp only [pure_eq_ok, gopanic_ne_ok] at h <;> (try subst h) <;> rfl
 
 theorem setNode_sview {s s' : State} {n : Node} (h : setNode s n = .ok s') : sview s' = sview s := by
   unfold setNode at h
-  split at h <;> simp only [pure_eq_ok, gopanic_ne_ok] at h <;> (try subst h) <;> first | rfl | contradiction
+  split at h <;> simp only [pure_eq_ok, gopanic_ne_ok] at h <;> (try subst h) <;> rfl
 
 theorem setPlan_sview {s s' : State} {p : Plan} (h : setPlan s p = .ok s') : sview s' = sview s := by
   unfold setPlan at h
-  split at h <;> simp only [pure_eq_ok, gopanic_ne_ok] at h <;> (try subst h) <;> first | rfl | contradiction
+  split at h <;> simp only [pure_eq_ok, gopanic_ne_ok] at h <;> (try subst h) <;> rfl
 
 theorem sendCoins_sview {s s' : State} {f t : Addr} {c : Coin} (h : sendCoins s f t c = .ok s') : sview s' = sview s := by
   have := (sendCoins_ok h).2.1
@@ -525,5 +525,288 @@ theorem subCancel_sessInv {s s' : State} {frm : Addr} {id : Nat} (h : subCancel 
   obtain ⟨sub, _, _, _, _, _, s1, h1, h2⟩ := h
   have i1 : SessInv s1 := subscriptionInactivePendingHook_sessInv h1 (SessInv.of_view (s := s) rfl hi)
   exact SessInv.of_view (s := s1) (by rw [detachPayout_sview h2, sview_subToPending]) i1
+
+/-! ### every message -/
+
+theorem handle_sessInv {s s' : State} {m : Msg} (h : m.handle s = .ok s') (hi : SessInv s) : SessInv s' := by
+  cases m <;> simp only [Msg.handle] at h
+  case provRegister => exact SessInv.of_view (provRegister_sview h) hi
+  case provUpdate => exact SessInv.of_view (provUpdate_sview h) hi
+  case nodeRegister => exact SessInv.of_view (nodeRegister_sview h) hi
+  case nodeUpdate => exact SessInv.of_view (nodeUpdate_sview h) hi
+  case nodeStatus => exact SessInv.of_view (nodeStatus_sview h) hi
+  case nodeSubscribe => exact SessInv.of_view (nodeSubscribe_sview h) hi
+  case planCreate => exact SessInv.of_view (planCreate_sview h) hi
+  case planStatus => exact SessInv.of_view (planStatus_sview h) hi
+  case planLink => exact SessInv.of_view (planLink_sview h) hi
+  case planUnlink => exact SessInv.of_view (planUnlink_sview h) hi
+  case planSubscribe => exact SessInv.of_view (planSubscribe_sview h) hi
+  case subCancel => exact subCancel_sessInv h hi
+  case subAllocate => exact SessInv.of_view (subAllocate_sview h) hi
+  case sessStart => exact sessStart_sessInv h hi
+  case sessUpdate => exact sessUpdate_sessInv h hi
+  case sessEnd => exact sessEnd_sessInv h hi
+  case swap => exact SessInv.of_view (swap_sview h) hi
+
+/-- A delivered message — accepted or rejected. -/
+theorem deliver_sessInv (s : State) (m : Msg) (hi : SessInv s) : SessInv (deliver s m).1 := by
+  have h0 : SessInv { s with events := [] } := SessInv.of_view (s := s) rfl hi
+  unfold deliver
+  simp only []
+  cases hr : (do m.validateBasic; m.handle { s with events := [] } : M State) with
+  | ok s' =>
+    simp only [bind_eq_ok] at hr
+    obtain ⟨_, _, hh⟩ := hr
+    exact handle_sessInv hh h0
+  | error e => cases e <;> exact h0
+
+/-! ### begin of block -/
+
+theorem sview_mintBeginBlock_go (l : List Inflation) (s : State) : sview (mintBeginBlock.go s l) = sview s := by
+  induction l generalizing s with
+  | nil => rfl
+  | cons item rest ih =>
+    unfold mintBeginBlock.go
+    split
+    · rfl
+    · rw [ih]; rfl
+
+theorem sview_mintBeginBlock (s : State) : sview (mintBeginBlock s) = sview s := sview_mintBeginBlock_go _ s
+
+theorem sview_distrSweep (s : State) : sview (distrSweep s) = sview s := by
+  unfold distrSweep
+  exact foldl_inv (fun t => sview t = sview s) sweepDenom (fun t d h => (rfl : sview (sweepDenom t d) = sview t).trans h) _ s rfl
+
+theorem payoutStep_sview {s s' : State} {k : Time × Nat} (h : payoutStep s k = .ok s') : sview s' = sview s := by
+  unfold payoutStep at h
+  simp only [bind_eq_ok, pure_eq_ok, requireP_eq_ok, orPanic_eq_ok] at h
+  obtain ⟨item, _, reward, _, s2, h2, payAmt, _, _, _, s3, h3, rfl⟩ := h
+  have e : sview s3 = sview s :=
+    (sendCoinFromDepositToAccount_sview h3).trans ((sendCoinFromDepositToModule_sview h2).trans rfl)
+  rw [← e]
+  split <;> rfl
+
+theorem beginBlock_sview {s s' : State} {t : Time} (h : beginBlock s t = .ok s') : sview s' = sview s := by
+  unfold beginBlock haltOf at h
+  split at h <;> try contradiction
+  rename_i s'' hs
+  simp only [Except.ok.injEq] at h
+  subst h
+  unfold subscriptionBeginBlock at hs
+  rw [foldlM_sview _ (fun a k b h1 => payoutStep_sview (panicIfErr_eq_ok.mp h1)) _ _ _ hs, sview_distrSweep,
+    sview_mintBeginBlock]
+  rfl
+
+theorem beginBlock_sessInv {s s' : State} {t : Time} (h : beginBlock s t = .ok s') (hi : SessInv s) : SessInv s' :=
+  SessInv.of_view (beginBlock_sview h) hi
+
+/-! ### end of block -/
+
+theorem nodeSweep_sview {s s' : State} (h : nodeSweep s = .ok s') : sview s' = sview s := by
+  unfold nodeSweep at h
+  split at h
+  · rw [pure_eq_ok] at h; rw [h]
+  · refine foldlM_sview _ ?_ _ s s' h
+    intro s0 a s1 h1
+    simp only [bind_eq_ok, pure_eq_ok, orPanic_eq_ok] at h1
+    obtain ⟨item, _, s2, h2, rfl⟩ := h1
+    rw [sview_emit, setNode_sview h2]
+
+theorem nodeExpireStep_sview {s s' : State} {k : Time × Addr} (h : nodeExpireStep s k = .ok s') : sview s' = sview s := by
+  unfold nodeExpireStep at h
+  simp only [bind_eq_ok, pure_eq_ok, orPanic_eq_ok] at h
+  obtain ⟨item, _, s3, h3, rfl⟩ := h
+  rw [sview_emit, setNode_sview h3]; rfl
+
+theorem nodeExpire_sview {s s' : State} (h : nodeExpire s = .ok s') : sview s' = sview s := by
+  unfold nodeExpire at h
+  exact foldlM_sview _ (fun a k b h1 => nodeExpireStep_sview h1) _ s s' h
+
+theorem nodeEndBlock_sview {s s' : State} (h : nodeEndBlock s = .ok s') : sview s' = sview s := by
+  unfold nodeEndBlock at h
+  simp only [bind_eq_ok] at h
+  obtain ⟨s1, h1, h2⟩ := h
+  rw [nodeExpire_sview h2, nodeSweep_sview h1]
+
+theorem settleSession_sview {s s' : State} {x : Session} {acc node : Addr} {dep : Coin} {gb b a : Int}
+    (h : settleSession s x acc node dep gb b a = .ok s') : sview s' = sview s := by
+  unfold settleSession at h
+  simp only [bind_eq_ok, pure_eq_ok, requireP_eq_ok] at h
+  obtain ⟨price, _, prev, _, cur, _, payAmt, _, payment, _, reward, _, s1, h1, netAmt, _, _, _, s2, h2, rfl⟩ := h
+  rw [sview_emit, sendCoinFromDepositToAccount_sview h2, sendCoinFromDepositToModule_sview h1]
+
+theorem sessionInactiveHook_sview {s s' : State} {id : Nat} {acc node : Addr} {bytes : Int}
+    (h : sessionInactiveHook s id acc node bytes = .ok s') : sview s' = sview s := by
+  unfold sessionInactiveHook at h
+  simp only [bind_eq_ok, require_eq_ok, orReject_eq_ok] at h
+  obtain ⟨x, _, _, _, sub, _, h⟩ := h
+  split at h
+  · rw [pure_eq_ok] at h; rw [h]
+  · simp only [bind_eq_ok, orReject_eq_ok] at h
+    obtain ⟨a, _, used, _, h⟩ := h
+    split at h
+    · rw [settleSession_sview h]; rfl
+    · rw [pure_eq_ok] at h; rw [← h]; rfl
+
+theorem sview_removeSession_congr {a b : State} (h : sview a = sview b) (x : Session) :
+    sview (removeSession a x) = sview (removeSession b x) := by
+  have h1 : a.sessions = b.sessions := congrArg SessView.sessions h
+  have h2 : a.sessQ = b.sessQ := congrArg SessView.sessQ h
+  have h3 : a.sessForAcc = b.sessForAcc := congrArg SessView.sessForAcc h
+  have h4 : a.sessForNode = b.sessForNode := congrArg SessView.sessForNode h
+  have h5 : a.sessForSub = b.sessForSub := congrArg SessView.sessForSub h
+  have h6 : a.sessForAlloc = b.sessForAlloc := congrArg SessView.sessForAlloc h
+  have h7 : a.sessCount = b.sessCount := congrArg SessView.sessCount h
+  show SessView.mk _ _ _ _ _ _ _ = SessView.mk _ _ _ _ _ _ _
+  simp only [removeSession, emit, h1, h2, h3, h4, h5, h6, h7]
+
+theorem sessionStep_sessInv {s s' : State} {k : Time × Nat} (h : sessionStep s k = .ok s') (hi : SessInv s) : SessInv s' := by
+  unfold sessionStep at h
+  simp only [bind_eq_ok, orPanic_eq_ok] at h
+  obtain ⟨item, hx, h⟩ := h
+  have hid := (hi.1 k.2 item hx).1
+  rw [← hid] at hx
+  split at h
+  · rw [pure_eq_ok] at h; rw [← h]; exact sessionToPending_sessInv hx hi
+  · simp only [bind_eq_ok, pure_eq_ok, panicIfErr_eq_ok] at h
+    obtain ⟨bytes, _, s2, h2, rfl⟩ := h
+    exact SessInv.of_view (sview_removeSession_congr (sessionInactiveHook_sview h2) item) (removeSession_sessInv hx hi)
+
+theorem sessionEndBlock_sessInv {s s' : State} (h : sessionEndBlock s = .ok s') (hi : SessInv s) : SessInv s' := by
+  unfold sessionEndBlock at h
+  exact foldlM_inv SessInv _ (fun s0 k s1 h1 hp => sessionStep_sessInv h1 hp) _ _ _ h hi
+
+theorem refundSub_sview {s s' : State} {item : Sub} (h : refundSub s item = .ok s') : sview s' = sview s := by
+  unfold refundSub at h
+  split at h
+  · simp only [bind_eq_ok] at h
+    obtain ⟨s1, h1, h2⟩ := h
+    have i1 : sview s1 = sview s := by
+      split at h1
+      · unfold refundGB at h1
+        simp only [bind_eq_ok, pure_eq_ok, orPanic_eq_ok, panicIfErr_eq_ok] at h1
+        obtain ⟨price, _, a, _, paid, _, ra, _, refund, _, s2, h2', rfl⟩ := h1
+        rw [sview_emit, subtractDeposit_sview h2']
+      · rw [pure_eq_ok] at h1; rw [← h1]
+    split at h2
+    · unfold refundHr at h2
+      simp only [bind_eq_ok, pure_eq_ok, orPanic_eq_ok, panicIfErr_eq_ok] at h2
+      obtain ⟨p, _, ra, _, refund, _, s2, h2', rfl⟩ := h2
+      rw [sview_emit, subtractDeposit_sview h2', i1]
+    · rw [pure_eq_ok] at h2; rw [← h2]; exact i1
+  · rw [pure_eq_ok] at h; rw [h]
+
+theorem sview_removeAllocs (l : List Addr) (s : State) (id : Nat) : sview (removeAllocs s id l) = sview s := by
+  unfold removeAllocs
+  induction l generalizing s with
+  | nil => rfl
+  | cons a rest ih => rw [List.foldl_cons, ih]; rfl
+
+theorem sview_removeSubRecords (s : State) (item : Sub) : sview (removeSubRecords s item) = sview s := by
+  unfold removeSubRecords
+  cases item.kind with
+  | node n g h d => rfl
+  | plan pid dn =>
+    simp only [sview_emit]
+    exact (rfl : sview { (removeAllocs _ _ _) with subs := _ } = sview (removeAllocs _ _ _)).trans (sview_removeAllocs _ _ _)
+
+theorem removePayout_sview {s s' : State} {item : Sub} (h : removePayout s item = .ok s') : sview s' = sview s := by
+  unfold removePayout at h
+  split at h
+  · simp only [bind_eq_ok, pure_eq_ok, orPanic_eq_ok] at h
+    obtain ⟨p, _, rfl⟩ := h
+    rfl
+  · rw [pure_eq_ok] at h; rw [h]
+
+theorem subscriptionStep_sessInv {s s' : State} {d : Dur} {k : Time × Nat} (h : subscriptionStep d s k = .ok s')
+    (hi : SessInv s) : SessInv s' := by
+  unfold subscriptionStep at h
+  simp only [bind_eq_ok, orPanic_eq_ok] at h
+  obtain ⟨item, _, h⟩ := h
+  split at h
+  · simp only [bind_eq_ok, panicIfErr_eq_ok] at h
+    obtain ⟨s2, h2, h3⟩ := h
+    have i2 : SessInv s2 := subscriptionInactivePendingHook_sessInv h2 (SessInv.of_view (s := s) rfl hi)
+    exact SessInv.of_view (s := s2) (by rw [detachPayout_sview h3, sview_subToPending]) i2
+  · simp only [bind_eq_ok] at h
+    obtain ⟨s2, h2, h3⟩ := h
+    refine SessInv.of_view (s := s) ?_ hi
+    rw [removePayout_sview h3, sview_removeSubRecords, refundSub_sview h2]; rfl
+
+theorem subscriptionEndBlock_sessInv {s s' : State} (h : subscriptionEndBlock s = .ok s') (hi : SessInv s) : SessInv s' := by
+  unfold subscriptionEndBlock at h
+  exact foldlM_inv SessInv _ (fun s0 k s1 h1 hp => subscriptionStep_sessInv h1 hp) _ _ _ h hi
+
+theorem endBlock_sessInv {s s' : State} (h : endBlock s = .ok s') (hi : SessInv s) : SessInv s' := by
+  unfold endBlock haltOf at h
+  split at h <;> try contradiction
+  rename_i s2 hs
+  split at hs <;> try contradiction
+  rename_i s3 hs3
+  simp only [Except.ok.injEq] at hs h
+  subst hs; subst h
+  unfold vpnEndBlock at hs3
+  simp only [bind_eq_ok] at hs3
+  obtain ⟨s1, ha, sb, hc, hd⟩ := hs3
+  have i1 : SessInv s1 := SessInv.of_view (s := s) (by rw [nodeEndBlock_sview ha]; rfl) hi
+  have i2 : SessInv sb := sessionEndBlock_sessInv hc i1
+  have i3 : SessInv s3 := subscriptionEndBlock_sessInv hd i2
+  exact SessInv.of_view (s := s3) rfl i3
+
+/-! ### governance, one operation, genesis -/
+
+theorem gov_sview (s : State) (c : ParamChange) : sview ((gov s c).getD s) = sview s := by
+  cases hg : gov s c with
+  | none => rfl
+  | some s' =>
+    simp only [Option.getD]
+    unfold gov at hg
+    cases c <;> simp only [] at hg <;> (try split at hg) <;> (try split at hg) <;>
+      first
+        | (simp only [Option.some.injEq] at hg; rw [← hg]; rfl)
+        | (simp only [reduceCtorEq] at hg)
+
+theorem gov_sessInv (s : State) (c : ParamChange) (hi : SessInv s) : SessInv ((gov s c).getD s) :=
+  SessInv.of_view (gov_sview s c) hi
+
+theorem step_sessInv {s s' : State} {op : Op} (h : step s op = some s') (hi : SessInv s) : SessInv s' := by
+  cases op with
+  | tx m =>
+    simp only [step, Option.some.injEq] at h
+    rw [← h]; exact deliver_sessInv s m hi
+  | begin t =>
+    simp only [step] at h
+    split at h
+    · rename_i s1 hb
+      simp only [Option.some.injEq] at h; rw [← h]; exact beginBlock_sessInv hb hi
+    · contradiction
+  | endB =>
+    simp only [step] at h
+    split at h
+    · rename_i s1 hb
+      simp only [Option.some.injEq] at h; rw [← h]; exact endBlock_sessInv hb hi
+    · contradiction
+  | gov c =>
+    simp only [step, Option.some.injEq] at h
+    rw [← h]; exact gov_sessInv s c hi
+
+theorem sview_addBalance (s : State) (b : Addr × Denom × Int) : sview (addBalance s b) = sview s := by
+  unfold addBalance; split <;> rfl
+
+theorem genesis_sview (g : Genesis) : sview g.state = sview g.base := by
+  unfold Genesis.state
+  exact foldl_inv (fun t => sview t = sview g.base) addBalance (fun t b h => (sview_addBalance t b).trans h) _ _ rfl
+
+theorem base_sessInv (g : Genesis) : SessInv g.base := by
+  refine ⟨?_, ?_, ?_, ?_, ?_, ?_, ?_⟩
+  · intro i x h; simp [Genesis.base, Tbl.get] at h
+  · intro t i; simp [Genesis.base, Tbl.has, Tbl.get]
+  · intro t i; simp [Genesis.base, Tbl.has, Tbl.get]
+  · intro t i; simp [Genesis.base, Tbl.has, Tbl.get]
+  · intro t i; simp [Genesis.base, Tbl.has, Tbl.get]
+  · intro u a i; simp [Genesis.base, Tbl.has, Tbl.get]
+  · exact ⟨Tbl.nodup_nil, Tbl.nodup_nil, Tbl.nodup_nil, Tbl.nodup_nil, Tbl.nodup_nil, Tbl.nodup_nil⟩
+
+theorem genesis_sessInv (g : Genesis) : SessInv g.state := SessInv.of_view (genesis_sview g) (base_sessInv g)
 
 end Hub.Model
